@@ -489,9 +489,20 @@ func (m *Monitors) OnSnapshotDurable(node int, meta raft.SnapshotMeta, data []by
 	if f, ok := m.agreed[meta.Index]; ok && !user && f.e.Term != meta.Term {
 		m.fail("C11", "snapshot-term-wrong", "n%d snapshot at index %d stamped with term %d, the committed entry there has term %d", node, meta.Index, meta.Term, f.e.Term)
 	}
+	// after a user Restore the FSM content is the supplied bytes followed by later entries: history at or
+	// below the restore's floor is replaced, not missing
+	var floor uint64
+	for _, a := range content {
+		if a.Type == 255 {
+			floor = m.floorByData[a.Data] + 1
+		}
+	}
 	if !user {
 		have := map[uint64]bool{}
 		for _, a := range content {
+			if a.Type == 255 {
+				continue
+			}
 			have[a.Index] = true
 			if a.Index > meta.Index {
 				m.fail("C11", "snapshot-content-beyond-index", "n%d snapshot stamped with index %d contains entry %v", node, meta.Index, a)
@@ -500,7 +511,7 @@ func (m *Monitors) OnSnapshotDurable(node int, meta raft.SnapshotMeta, data []by
 				m.fail("C11", "snapshot-content-wrong", "n%d snapshot at %d contains %v, committed history has %v", node, meta.Index, a, f.e)
 			}
 		}
-		for i := uint64(1); i <= meta.Index; i++ {
+		for i := floor + 1; i <= meta.Index; i++ {
 			if f, ok := m.agreed[i]; ok && m.fsmSees(raft.LogType(f.e.Type)) && !have[i] {
 				m.fail("C11", "snapshot-content-missing", "n%d snapshot stamped with index %d lacks committed entry %v", node, meta.Index, f.e)
 				break
